@@ -232,6 +232,7 @@ def bytes_to_int_be(rep, tier):
     rp = {"kind": "c18_b2i", "args": {}}
     for L in range(0, 34):
         def run(ctx, L=L):
+            ctx.exact_os2ip = 64        # int.from_bytes on a string of concrete length is modelled bit-precisely (not as the uninterpreted OS2IP)
             b = SymBytes.var("d", length=L)
             return b, sp.bytes_to_int(b)
 
